@@ -258,3 +258,19 @@ Theorem model_is_of_current_source_2 :
   Gen.C02.tally_aborts_on_error = true /\ Gen.C02.vote_requires_bonded = true /\ Gen.C02.per_chain_store_sites = 15.
 Proof. exact source_facts2. Qed.
 Print Assumptions model_is_of_current_source_2.
+
+(** Can the counted power exceed the total?  [staking_consistent p t]: no recorded power is
+    negative and the total is their sum — what x/staking maintains (both are written by its
+    end-blocker; an operator without a power record, e.g. one that left the bonded set or whose
+    staking record was removed, counts 0).  Then distinct voters never hold more than the total … *)
+Theorem counted_power_never_exceeds_total : forall (p : list (Z * Z)) (t : Z) (vs : list Z),
+  staking_consistent p t -> NoDup vs -> power p vs <= t.
+Proof. exact counted_power_le_total. Qed.
+Print Assumptions counted_power_never_exceeds_total.
+
+(** … and two sets of distinct voters that both pass the 66 % threshold share a validator. *)
+Theorem quorums_share_a_validator : forall (p : list (Z * Z)) (t : Z) (vs1 vs2 : list Z),
+  staking_consistent p t -> NoDup vs1 -> NoDup vs2 ->
+  100 * power p vs1 > 66 * t -> 100 * power p vs2 > 66 * t -> exists v, In v vs1 /\ In v vs2.
+Proof. exact quorums_intersect. Qed.
+Print Assumptions quorums_share_a_validator.
